@@ -8,7 +8,7 @@
      smono st st'        st' is st with some locks removed                     (ProofsStore)
      covered pieces k    some piece contains k                                 (ProofsDel) *)
 From Verif Require Import Base.Lex RangeTask.Model RangeTask.ProofsOrd RangeTask.ProofsStore RangeTask.ProofsPart
-  RangeTask.ProofsInv RangeTask.ProofsScan RangeTask.ProofsGc RangeTask.ProofsOut RangeTask.ProofsDel RangeTask.ProofsTerm RangeTask.ProofsAsync RangeTask.ProofsVis.
+  RangeTask.ProofsInv RangeTask.ProofsScan RangeTask.ProofsGc RangeTask.ProofsOut RangeTask.ProofsDel RangeTask.ProofsTerm RangeTask.ProofsAsync RangeTask.ProofsVis RangeTask.ProofsProps.
 Open Scope N_scope.
 
 (* ---- range task: for every range (unbounded end included) and every sequence of layouts, the sub-ranges
@@ -20,10 +20,7 @@ Theorem C14_partition : forall (batch_end : nat -> list N -> list N) fuel s e su
   (empty_range s e = false -> chain s e subs) /\
   (forall k, cover_count subs k = if in_range s e k && negb (empty_range s e) then 1%nat else 0%nat) /\
   (forall h, task_ok h subs = true <-> forall sub, In sub subs -> h sub = true).
-Proof.
-  intros be fuel s e subs Hbe H. destruct (run_on_range_spec be Hbe fuel s e subs H) as [H1 H2].
-  split; [exact H1|]. split; [exact H2|]. split; [apply (run_on_range_cover be Hbe fuel); exact H|]. intros h; apply task_ok_spec.
-Qed.
+Proof. exact C14_partition_proof. Qed.
 Print Assumptions C14_partition.
 
 (* region layouts given as split-key lists (any list, any regions-per-task >= 1) are such layout functions *)
@@ -50,7 +47,7 @@ Theorem C14_gc_terminates : forall sp limit e S fuel os st s,
   (0 < limit)%nat -> sorted st -> Forall (ends_in S) os ->
   (above S s + count_old sp st + rescans os < fuel)%nat ->
   gc_resolve_range fuel sp limit s e os st <> GcOutOfFuel.
-Proof. intros sp limit e S fuel os st s Hl Hs He Hm. apply (gc_loop_terminates sp limit e S Hl fuel os st s Hs He Hm). Qed.
+Proof. exact C14_gc_terminates_proof. Qed.
 Print Assumptions C14_gc_terminates.
 
 (* the whole resolve-locks phase: the handler run on every sub-range, in any order *)
@@ -120,7 +117,7 @@ Print Assumptions C14_async_fallback.
 Theorem C14_primary_check : forall st0 sp locks st infos,
   wf_store st0 -> primaries_ok st0 -> InvP st0 sp st -> infos_ok st0 sp infos -> from0 st0 sp locks ->
   collect_v st locks infos = Some (collect st locks infos).
-Proof. intros st0 sp locks st infos Hwf Hp. apply (collect_v_ok st0 sp Hwf locks Hp). Qed.
+Proof. exact C14_primary_check_proof. Qed.
 Print Assumptions C14_primary_check.
 
 (* snapshot reads (any ts, in particular ts >= sp) of keys without an old lock are unchanged by the pass *)
@@ -153,6 +150,19 @@ Theorem C14_gc_clamped : forall st0 expected granted limit fuel tasks st' sp',
 Proof. exact gc_full_clamped. Qed.
 Print Assumptions C14_gc_clamped.
 
+(* ---- rollback markers (partial: a derived layer, see Model.markers -- the abstract store keeps data writes only; the
+   marker CheckTxnStatus leaves on an absent primary and min_commit_ts pushing are not represented): every prewrite
+   lock with start <= sp whose transaction is not committed gets a marker that refuses a late prewrite of the same
+   (key, start ts); a marker exists only for such a lock, so no committed transaction is ever marked *)
+Theorem C14_rollback_markers_partial : forall st0 sp,
+  (forall r l, In r st0 -> k_lock r = Some l -> l_start l <= sp -> is_pess l = false ->
+     committed_at st0 (l_primary l) (l_start l) = None -> late_prewrite_accepted (markers st0 sp) (k_key r) (l_start l) = false) /\
+  (forall k t, In (k, t) (markers st0 sp) ->
+     exists r l, In r st0 /\ k_key r = k /\ k_lock r = Some l /\ l_start l = t /\ t <= sp /\ is_pess l = false /\
+                 committed_at st0 (l_primary l) t = None).
+Proof. exact C14_rollback_markers_partial_proof. Qed.
+Print Assumptions C14_rollback_markers_partial.
+
 (* ---- delete range: whatever the layouts, exactly the keys of [s,e) are removed (nothing for notify-only),
    and the requests sent tile the range *)
 Theorem C14_delete_range_exact : forall batch_end region_end fuel notify s e st st' pieces,
@@ -161,7 +171,7 @@ Theorem C14_delete_range_exact : forall batch_end region_end fuel notify s e st 
   delete_range_task batch_end region_end fuel notify s e st = Some (st', pieces) ->
   st' = (if notify then st else filter (fun r => negb (in_range s e (k_key r))) st) /\
   (forall k, covered pieces k = in_range s e k).
-Proof. intros be re fuel notify s e st st' pieces H1 H2. apply (delete_range_task_exact be re H1 H2). Qed.
+Proof. exact C14_delete_range_exact_proof. Qed.
 Print Assumptions C14_delete_range_exact.
 
 (* ---- visibility: with a fresh cache, a read below the cached txn safe point is refused with aborted-by-GC
@@ -169,11 +179,7 @@ Print Assumptions C14_delete_range_exact.
 Theorem C14_visibility : forall (A : Type) cached ts (data : A),
   (ts < cached -> check_visibility false cached ts = VisAbortedByGC /\ snapshot_read false cached ts data = (VisAbortedByGC, None)) /\
   (cached <= ts -> check_visibility false cached ts = VisOk /\ snapshot_read false cached ts data = (VisOk, Some data)).
-Proof.
-  intros A cached ts data; unfold snapshot_read, check_visibility; split; intros H.
-  - apply N.ltb_lt in H; rewrite H; split; reflexivity.
-  - apply N.ltb_ge in H; rewrite H; split; reflexivity.
-Qed.
+Proof. exact C14_visibility_proof. Qed.
 Print Assumptions C14_visibility.
 
 (* the same over ANY schedule of safe-point updates interleaved with the sends and the post-response checks of one
@@ -187,12 +193,7 @@ Theorem C14_visibility_schedule : forall ts cached,
      run_read cached ts (pre ++ VCheck :: post) = (VisAbortedByGC, count_checks pre)) /\
   (forall evs, (forall pre post, evs = pre ++ VCheck :: post -> cached_after cached pre <= ts) ->
      run_read cached ts evs = (VisOk, count_checks evs)).
-Proof.
-  intros ts cached. split; [|split].
-  - intros evs pre post. apply run_read_refused.
-  - intros pre post. apply run_read_first.
-  - intros evs. apply run_read_served.
-Qed.
+Proof. exact C14_visibility_schedule_proof. Qed.
 Print Assumptions C14_visibility_schedule.
 
 (* ---- non-vacuity *)
@@ -274,6 +275,9 @@ Example ex_mismatch_unchecked :   (* without the check (mocktikv) the committed 
   fst (collect ex_mismatch [mkRec (ex_k 1) (Some (mkLock 10 (ex_k 2) LPess [])) []] [])
   = [ mkRec (ex_k 1) None []; mkRec (ex_k 2) None []; mkRec (ex_k 3) None [mkWrite 10 15 (Some [3])] ].
 Proof. vm_compute. reflexivity. Qed.
+Example ex_markers : markers ex_store 50 = [(ex_k 1, 10); (ex_k 2, 10)] /\ late_prewrite_accepted (markers ex_store 50) (ex_k 2) 10 = false
+  /\ late_prewrite_accepted (markers ex_store 50) (ex_k 4) 20 = true.
+Proof. vm_compute. auto. Qed.
 Example ex_gc_clamped :   (* expected 95 would also resolve the lock of start 90; PD grants 50 *)
   option_map snd (gc_full 20 95 50 1 [(([], []), ex_os)] ex_store) = Some 50 /\
   option_map fst (gc_full 20 95 50 1 [(([], []), ex_os)] ex_store) = Some (resolve_all ex_store 50).
